@@ -604,6 +604,7 @@ class Runner:
                 Opening.limit = limit
                 Opening.fault = FAULTS[fname]("injected") if fname else None
                 Opening.last_kwargs = None
+                Opening.last_pair = None
                 o = await HangGuard.call(t.connect())
                 obs.append(o)
                 if o == "hang":
@@ -615,9 +616,13 @@ class Runner:
                 if fname is None:
                     if o != "ok":
                         bad("connect failed without a fault", got=o)
+                    if Opening.last_pair is None:      # no connection was opened: nothing the case could go on with
+                        if o == "ok":
+                            bad("connect returned normally without calling the open function", got=o)
+                        break
                     st.update(connected=True, data=b"", eof=False, limit=limit, done=0, failed=None, accepted=b"",
                               writer=Opening.last_pair[1], reader=Opening.last_pair[0])
-                    if t.reader is not Opening.last_pair[0] or t.writer is not Opening.last_pair[1]:
+                    if getattr(t, "reader", None) is not Opening.last_pair[0] or getattr(t, "writer", None) is not Opening.last_pair[1]:
                         bad("connect did not install the opened reader/writer")
                 elif fname in IO_FAULTS and not is_transport_error(o):
                     bad("a failed connection attempt did not surface as a transport error", fault=fname, got=o)
@@ -780,10 +785,15 @@ async def run_concurrent(corr: Corr, ops: list[tuple], flavour: int, limit: int,
     Opening.limit, Opening.fault, Opening.last_kwargs = limit, None, None
     Opening.make_writer = GatedWriter
     try:
+        Opening.last_pair = None
         t, _ = make_transport(flavour)
-        await t.connect()
+        o = await HangGuard.call(t.connect())
     finally:
         Opening.make_writer = None
+    if o != "ok" or Opening.last_pair is None:
+        corr.violate("connect did not succeed although the open function returned a connection at once",
+                     {**info, "flavour": ["direct", "tcp", "serial"][flavour], "limit": limit, "history": ["connect"], "got": o})
+        return ["connect -> " + o], [], b"", False
     reader, w = Opening.last_pair            # the harness's own handles; the transport's fields are never used
     tasks: list[tuple[str, asyncio.Task]] = []      # (label, task) in start order
     reported: set[str] = set()
@@ -1154,7 +1164,7 @@ async def run_slow_connect(corr: Corr, case: dict, info: dict) -> tuple[list[str
             bad("connect was cancelled by its caller while pending and did not propagate the cancellation", got=o)
         elif o == "ok" and not script.pairs:
             bad("connect returned normally although no attempt to open the connection succeeded", got=o)
-        elif o == "ok" and (t.reader is not script.pairs[-1][0] or t.writer is not script.pairs[-1][1]):
+        elif o == "ok" and (getattr(t, "reader", None) is not script.pairs[-1][0] or getattr(t, "writer", None) is not script.pairs[-1][1]):
             bad("connect did not install the opened reader/writer")
         elif is_transport_error(o) and "opened" in script.ended and not cancelled_by_caller:
             bad("connect failed although the connection was opened", got=o)
@@ -1215,7 +1225,7 @@ async def run_slow_connect(corr: Corr, case: dict, info: dict) -> tuple[list[str
         obs.append(r)
         if r != "ok" or not script.pairs:
             bad("a new connection attempt that the peer answers within half a second did not succeed", got=r, raised=raised)
-        elif t.reader is not script.pairs[-1][0] or t.writer is not script.pairs[-1][1]:
+        elif getattr(t, "reader", None) is not script.pairs[-1][0] or getattr(t, "writer", None) is not script.pairs[-1][1]:
             bad("connect did not install the opened reader/writer")
         else:
             await use_connection(full=False)
@@ -1886,7 +1896,10 @@ def delivery_model_ops(case: dict, res: dict) -> tuple[list[str], list[str]] | N
 
 
 def replay(case: dict) -> int:
-    """Re-execute a recorded delivery case (`case["delivery"]`) on the implementation."""
+    """Re-execute a recorded delivery case (`case["delivery"]`) or pre-connection case (`case["preconnection"]`) on the
+    implementation."""
+    if "preconnection" in case:
+        return replay_preconnection(case)
     d = case["delivery"]
     print("scenario:", delivery_text(d))
 
@@ -1897,6 +1910,381 @@ def replay(case: dict) -> int:
     print("steps:", res.get("steps"))
     print(f"writes returned normally: {res.get('writes_returned')} ({res.get('written_bytes')} bytes); the peer received "
           f"{res.get('received_bytes')} bytes; its stream ended with: {res.get('ending')}")
+    for what, kw in res["violations"]:
+        print("  VIOLATED:", what)
+        for k, v in kw.items():
+            print(f"     {k}: {v}")
+    print("reproduced" if res["violations"] else "NOT reproduced: the oracle holds on this run")
+    return 0
+
+
+# ---- (g) the concrete transports while no connection exists -------------------------------------
+#
+# C17: "a failed connection attempt ... surfaces as a transport error, using the transport before it was connected
+# raises a transport error, and disconnecting absorbs OS-level errors" - said of the serial and the TCP transport, i.e.
+# of objects made by `TCPTransport(host, port)` / `SerialTransport(port, baud)` themselves, in every state in which no
+# connection exists.  A pre-connection case is ONE such object (constructed with positional arguments, with keywords or
+# with the defaults) and a list of calls on it, each awaited before the next:
+#   ["connect", how]   how = "opens"                the open function returns a connection (the harness's reader/writer)
+#                          | a class of CONNECT_FAULTS  the open function raises it (at every attempt during this call)
+#                          | "cancelled"            the open function stays pending, the caller's task is cancelled
+#                          | "timeout"              the open function stays pending, the caller's `asyncio.timeout` expires
+#                          | "os"                   the REAL open function against the real OS: a loopback TCP port on which
+#                                                   nothing listens / a serial device that does not exist
+#   ["read"]  ["write"]  ["disconnect"]
+# The list is a state (fresh; a connect that failed in one of these ways; disconnect; disconnect, then a failed connect;
+# and the same two after a connection that was opened and disconnected) followed by EVERY sequence of <= 3 calls over
+# {read, write, disconnect, connect that opens, connect that fails}.  The open functions are the module-level ones the
+# concrete classes call (`asyncio.open_connection`, `transport.serial.open_serial_connection`: the seams the library's
+# own tests patch); nothing of the transport object is touched or looked at, every call is judged by its outcome:
+# while the object never had a connection, read/write raise a transport error, disconnect returns normally, a connect
+# whose open function raises an OSError-family class raises a transport error, a cancelled one propagates the
+# cancellation; once a connect opened a connection it delivers the line the harness feeds, takes a write and
+# disconnect closes the writer.  What read/write/disconnect do AFTER such a disconnect is outside the property (see
+# run_c17): those calls are made (they must not make the harness fall over) and not judged; a later connect is.
+# Each case is also the operation list `tnew, conn/read/write/disc ...` of the model, compared op by op up to the first
+# call that is not judged.  The cases run on the event loop with the virtual clock (a connect that pauses before it gives
+# up costs nothing, one that never ends is given up when nothing else can happen); only those with an "os" connect need
+# the real clock: there the real OS is a state with follow-ups of <= 1 call, and all of them together get P_OS_BUDGET s.
+
+P_TEXT = "1;2;1;0;0;5\n"
+P_LINE = b"ok\n"
+P_LIMIT = 64
+P_MISSING_DEVICE = "/dev/ttyVERIF-does-not-exist"
+P_OS_BUDGET = 5.0        # real seconds for all the cases that go to the operating system together
+P_ARGS = {"tcp": ("gw.example", 5004), "serial": ("/dev/ttyFAKE", 57600)}
+P_DEFAULTS = {"tcp": 5003, "serial": 115200}
+
+
+class Seams:
+    """The module-level open functions of the concrete transports replaced by `fn` for the duration."""
+
+    def __init__(self, fn) -> None:
+        self.fn = fn
+
+    def __enter__(self):
+        self.saved = asyncio.open_connection, serial_mod.open_serial_connection
+        asyncio.open_connection = self.fn
+        serial_mod.open_serial_connection = self.fn
+
+    def __exit__(self, *a):
+        asyncio.open_connection, serial_mod.open_serial_connection = self.saved
+
+
+def free_loopback_port():
+    """A loopback TCP port on which nothing listens (None if the loopback interface cannot be had)."""
+    try:
+        s = socket.socket(socket.AF_INET, socket.SOCK_STREAM)
+        s.bind(("127.0.0.1", 0))
+        port = s.getsockname()[1]
+        s.close()
+        return port
+    except OSError:
+        return None
+
+
+def pre_text(case: dict) -> str:
+    cls = "TCPTransport" if case["cls"] == "tcp" else "SerialTransport"
+    calls = ", ".join(s[0] + (f"[{s[1]}]" if len(s) > 1 else "") for s in case["steps"])
+    return f"{cls} constructed with {case['ctor']} arguments; then, each awaited: {calls}"
+
+
+def pre_uses_os(case: dict) -> bool:
+    return any(s[0] == "connect" and s[1] == "os" for s in case["steps"])
+
+
+def pre_loop_factory(case: dict):
+    """Cases that go to the operating system need the real clock; all others run on the virtual one."""
+    return None if pre_uses_os(case) else VirtualTimeLoop
+
+
+def pre_construct(case: dict, os_port):
+    """The object of the case and the arguments its open function must be given."""
+    uses_os = pre_uses_os(case)
+    if case["cls"] == "tcp":
+        host, port = ("127.0.0.1", os_port) if uses_os else P_ARGS["tcp"]
+        if case["ctor"] == "positional":
+            return TCPTransport(host, port), {"host": host, "port": port}
+        if case["ctor"] == "keyword":
+            return TCPTransport(host=host, port=port), {"host": host, "port": port}
+        return TCPTransport(host), {"host": host, "port": P_DEFAULTS["tcp"]}
+    dev, baud = (P_MISSING_DEVICE if uses_os else P_ARGS["serial"][0]), P_ARGS["serial"][1]
+    if case["ctor"] == "positional":
+        return SerialTransport(dev, baud), {"url": dev, "baudrate": baud}
+    if case["ctor"] == "keyword":
+        return SerialTransport(port=dev, baud=baud), {"url": dev, "baudrate": baud}
+    return SerialTransport(dev), {"url": dev, "baudrate": P_DEFAULTS["serial"]}
+
+
+async def run_preconnection(case: dict, os_port=None) -> dict:
+    """One pre-connection case on the real class.  Returns {"obs": one observation per step, "model": (lines, expected
+    observations) of the judged prefix, "violations": [(what, details)], "skipped": reason or None}."""
+    res: dict = {"obs": [], "violations": [], "skipped": None}
+    steps = case["steps"]
+    obs: list[str] = res["obs"]
+    mlines, mobs = ["tnew"], ["ok"]
+    res["model"] = (mlines, mobs)
+    judged = True                      # False from the first call that the property does not speak about
+
+    def bad(what: str, **kw) -> None:
+        res["violations"].append((what, {"step": len(obs), "call": steps[len(obs) - 1] if obs else None, **kw}))
+
+    def model(line: str, o: str) -> None:
+        if judged:
+            mlines.append(line)
+            mobs.append(o)
+
+    patience = Wall.guard if pre_uses_os(case) else HORIZON      # real seconds / seconds of the virtual clock
+
+    async def direct(coro) -> str:
+        """A call that the property gives an outcome: whatever it does is that outcome.  It may take time (a library
+        that pauses and tries again, that needs some turns of the loop); on the virtual clock that costs nothing, and a call
+        that never ends is given up when nothing else is left to happen ("hang": neither of the outcomes the property allows)."""
+        task = asyncio.ensure_future(coro)
+        await asyncio.wait({task}, timeout=patience)
+        if not task.done():
+            task.cancel()
+            await asyncio.wait({task})
+            return "hang"
+        return outcome_of(task)[0]
+
+    async def bounded(coro) -> str:
+        """A call the property does not speak about (after a disconnect; it may wait for the closed stream for ever): a few
+        turns of the loop, then given up."""
+        task = asyncio.ensure_future(coro)
+        for _ in range(YIELDS):
+            if task.done():
+                break
+            await asyncio.sleep(0)
+        if not task.done():
+            task.cancel()
+            await asyncio.wait({task})
+            return "wait"
+        return outcome_of(task)[0]
+
+    if pre_uses_os(case) and case["cls"] == "tcp" and os_port is None:
+        os_port = free_loopback_port()
+        if os_port is None:
+            res["skipped"] = "loopback sockets unavailable"
+            return res
+    try:
+        t, want_kwargs = pre_construct(case, os_port)
+    except Exception as e:  # noqa: BLE001
+        res["obs"].append(classify(e))
+        bad("the transport class could not be constructed the documented way", got=classify(e), ctor=case["ctor"])
+        return res
+    phase = "never"                    # never | connected | closed (a connection existed and was disconnected)
+    pair = None
+    pairs: list[tuple] = []
+    accepted = b""
+    for s in steps:
+        kind = s[0]
+        if kind == "connect":
+            how = s[1]
+            if phase == "connected":
+                raise ValueError("a pre-connection case does not connect a connected transport")
+            seen: dict = {}
+            if how == "os":
+                o = await direct(t.connect())
+                obs.append(o)
+                model(f"conn {P_LIMIT} OSError", o)
+                if o == "hang":
+                    bad("connect neither returned nor raised although the operating system refused the connection at once")
+                    return res
+                if o == "ok":
+                    res["skipped"] = "the operating system opened a connection that should not exist"
+                    await direct(t.disconnect())
+                    return res
+                if not is_transport_error(o):
+                    bad("a connection attempt that the operating system refused did not surface as a transport error", got=o)
+                continue
+            if how in ("cancelled", "timeout"):
+                script = SlowOpen(None, None, P_LIMIT, lambda text: None)
+
+                async def probe() -> None:
+                    try:
+                        await t.connect()
+                    except BaseException as e:  # noqa: BLE001
+                        seen["exc"] = e
+                        raise
+
+                async def with_timeout() -> None:
+                    async with asyncio.timeout(0):
+                        await probe()
+
+                with Seams(lambda **kw: script.attempt(kw)):
+                    task = asyncio.ensure_future(probe() if how == "cancelled" else with_timeout())
+                    for _ in range(YIELDS):
+                        await asyncio.sleep(0)
+                    if how == "cancelled":
+                        task.cancel()
+                    await asyncio.wait({task}, timeout=patience)
+                    if not task.done():
+                        task.cancel()
+                        await asyncio.wait({task})
+                        o = "hang"
+                    else:
+                        outcome_of(task)           # (retrieves the task's exception: the caller's own TimeoutError)
+                        o = classify(seen["exc"]) if "exc" in seen else "ok"
+                obs.append(o)
+                model(f"conn {P_LIMIT} CancelledError", o)
+                if o == "hang":
+                    bad("connect neither returned nor raised although its caller gave it up")
+                    return res
+                if script.started and o != "foreign CancelledError":
+                    bad("connect was given up by its caller while the open function was pending and did not propagate the "
+                        "cancellation", got=o)
+                elif not script.started and o == "ok":
+                    bad("connect returned normally although no connection was opened", got=o)
+                continue
+            Opening.limit, Opening.last_kwargs, Opening.last_pair, Opening.script = P_LIMIT, None, None, None
+            Opening.fault = None
+
+            async def refusing(**kw):
+                """The peer is in this state for the whole call: EVERY attempt to open the connection ends like this (a
+                library that tries again gets the same answer; what it makes of the last one is connect's outcome)."""
+                Opening.last_kwargs = kw
+                raise CONNECT_FAULTS[how]("injected")
+
+            with Seams((lambda **kw: fake_open(**kw)) if how == "opens" else refusing):
+                o = await direct(t.connect())
+            obs.append(o)
+            model(f"conn {P_LIMIT} {'-' if how == 'opens' else vocab_name(CONNECT_FAULTS[how])}", o)
+            if o == "hang":
+                bad("connect neither returned nor raised although the open function answers at once")
+                return res
+            if Opening.last_kwargs is not None and Opening.last_kwargs != want_kwargs:
+                bad("the configured address was not passed to the open function", got=repr(Opening.last_kwargs),
+                    want=repr(want_kwargs))
+            if how == "opens":
+                if o != "ok" or Opening.last_pair is None:
+                    bad("connect did not succeed although the open function returned a connection", got=o)
+                    return res
+                phase, pair, accepted = "connected", Opening.last_pair, b""
+                pairs.append(pair)
+            elif how in CONNECT_IO and not is_transport_error(o):
+                bad("a failed connection attempt did not surface as a transport error", fault=how, got=o)
+            elif o == "ok":
+                bad("connect returned normally although every attempt to open the connection failed", fault=how, got=o)
+                return res
+        elif kind == "read":
+            if phase == "connected":
+                pair[0].feed_data(P_LINE)
+                model("feed " + hexb(P_LINE), "ok")
+                o = await direct(t.read())
+                obs.append(o)
+                model("read", o)
+                if o != "line " + enc(P_LINE.decode()):
+                    bad("read on the connection just opened did not return the line that arrived", got=o)
+            elif phase == "never":
+                o = await direct(t.read())
+                obs.append(o)
+                model("read", o)
+                if not is_transport_error(o):
+                    bad("read on a transport that was never connected did not raise a transport error", got=o)
+            else:
+                judged = False
+                obs.append(await bounded(t.read()))
+        elif kind == "write":
+            if phase == "connected":
+                o = await direct(t.write(P_TEXT))
+                obs.append(o)
+                model(f"write {enc(P_TEXT)} -", o)
+                accepted += P_TEXT.encode()
+                if o != "ok" or bytes(pair[1].data) != accepted:
+                    bad("write on the connection just opened did not put exactly the line's bytes on the stream", got=o,
+                        stream=bytes(pair[1].data).hex())
+            elif phase == "never":
+                o = await direct(t.write(P_TEXT))
+                obs.append(o)
+                model(f"write {enc(P_TEXT)} -", o)
+                if not is_transport_error(o):
+                    bad("write on a transport that was never connected did not raise a transport error", got=o)
+            else:
+                judged = False
+                obs.append(await bounded(t.write(P_TEXT)))
+        elif kind == "disconnect":
+            if phase == "connected":
+                o = await direct(t.disconnect())
+                obs.append(o)
+                model("disc -", o)
+                if o != "ok" or not pair[1].closed:
+                    bad("disconnect of the connection just opened did not return normally with the writer closed", got=o)
+                phase = "closed"
+            elif phase == "never":
+                o = await direct(t.disconnect())
+                obs.append(o)
+                model("disc -", o)
+                if o != "ok":
+                    bad("disconnect of a transport that was never connected did not return normally", got=o)
+            else:
+                judged = False
+                obs.append(await bounded(t.disconnect()))
+        else:
+            raise ValueError(f"unknown step {s!r}")
+    for _, w in pairs:
+        w.release_stand_ins()
+    return res
+
+
+def preconnection_cases(tier: str) -> list[tuple[dict, dict]]:
+    """(case, info): every state x every follow-up of <= 3 calls x both classes (see the section comment)."""
+    classes = list(CONNECT_IO) if tier != "quick" else list(IO_FAULTS)
+    hows = [*classes, *CONNECT_OTHER, "cancelled", "timeout", "os"]
+    states: list[tuple[str, list]] = [("fresh", []), ("disconnected", [["disconnect"]]),
+                                      ("closed", [["connect", "opens"], ["disconnect"]])]
+    for h in hows:
+        states.append(("failed-connect", [["connect", h]]))
+        states.append(("disconnected+failed-connect", [["disconnect"], ["connect", h]]))
+        states.append(("closed+failed-connect", [["connect", "opens"], ["disconnect"], ["connect", h]]))
+    out: list[tuple[dict, dict]] = []
+    k = 0
+    follow_fail = [*classes, "cancelled", "timeout"]
+    alphabet = [["read"], ["write"], ["disconnect"], ["connect", "opens"], ["connect", None]]
+    follows: list[list] = [[]]
+    layer: list[list] = [[]]
+    for _ in range(3):
+        layer = [f + [a] for f in layer for a in alphabet]
+        follows.extend(layer)
+    ctors = ["positional", "keyword", "positional", "defaults"]
+    for cls in ("tcp", "serial"):
+        for label, prefix in states:
+            for f in follows:
+                if len(f) > 1 and any(s_[-1] == "os" for s_ in prefix):
+                    continue        # the real OS is one more way for an attempt to fail: short follow-ups, real time
+                steps, connected, ok = [list(s) for s in prefix], False, True
+                for a in f:
+                    a = list(a)
+                    if a[0] == "connect":
+                        if connected:
+                            ok = False                  # connecting a connected transport: not a pre-connection case
+                            break
+                        if a[1] is None:
+                            a[1] = follow_fail[k % len(follow_fail)]
+                            k += 1
+                        connected = a[1] == "opens"
+                    elif a[0] == "disconnect":
+                        connected = False
+                    steps.append(a)
+                if not ok:
+                    continue
+                out.append(({"cls": cls, "ctor": ctors[len(out) % len(ctors)], "steps": steps},
+                            {"source": "preconnection:" + label}))
+    return out
+
+
+def replay_preconnection(case: dict) -> int:
+    d = case["preconnection"]
+    print("scenario:", pre_text(d))
+
+    async def main() -> dict:
+        return await run_preconnection(d)
+
+    res = asyncio.run(main(), loop_factory=pre_loop_factory(d))
+    if res["skipped"]:
+        print("not executed:", res["skipped"])
+    for s, o in zip(d["steps"], res["obs"]):
+        print(f"   {' '.join(str(x) for x in s):<28} -> {o}")
     for what, kw in res["violations"]:
         print("  VIOLATED:", what)
         for k, v in kw.items():
@@ -1916,34 +2304,51 @@ async def concrete_checks_real(corr: Corr) -> None:
                 corr.notes.append(f"{name}.{meth} overrides StreamTransport.{meth}: the model describes the latter")
     if tr_mod.TERMINATOR != b"\n":
         corr.violate("TERMINATOR is not a newline", {"terminator": repr(tr_mod.TERMINATOR)})
-    # a TCP port on which nothing listens
-    try:
-        s = socket.socket(socket.AF_INET, socket.SOCK_STREAM)
-        s.bind(("127.0.0.1", 0))
-        port = s.getsockname()[1]
-        s.close()
-    except OSError as err:
-        corr.notes.append(f"loopback sockets unavailable ({err}); real TCP refusal not exercised")
-    else:
-        t = TCPTransport("127.0.0.1", port)
-        try:
-            await asyncio.wait_for(t.connect(), 10)
-            corr.notes.append("connect to a closed loopback port succeeded (something listens there?)")
-            await t.disconnect()
-        except exc_mod.TransportError:
-            corr.count("real:tcp-refused->TransportError")
-        except Exception as e:  # noqa: BLE001
-            corr.violate("a refused TCP connection did not surface as a transport error",
-                         {"exc": type(e).__name__, "host": "127.0.0.1", "port": port})
-        for what, coro in (("read", t.read()), ("write", t.write("x"))):
-            try:
-                await coro
-                corr.violate(f"{what} on a transport whose connection attempt failed did not raise", {})
-            except exc_mod.TransportError:
+    async def call(coro, seconds: float = 10.0) -> str:
+        """Every call on an object of the library is an outcome to be judged, whatever it raises."""
+        task = asyncio.ensure_future(coro)
+        await asyncio.wait({task}, timeout=seconds)
+        if not task.done():
+            task.cancel()
+            await asyncio.wait({task})
+            return "hang"
+        return outcome_of(task)[0]
+
+    # a TCP port on which nothing listens, a serial device that does not exist: the attempt fails with a transport error,
+    # after it the transport is what it was before (never connected): read/write raise transport errors, disconnect returns
+    port = free_loopback_port()
+    if port is None:
+        corr.notes.append("loopback sockets unavailable; real TCP refusal not exercised")
+    for name, t, where in (("tcp-refused", TCPTransport("127.0.0.1", port) if port is not None else None,
+                            {"host": "127.0.0.1", "port": port}),
+                           ("serial-missing-device", SerialTransport(P_MISSING_DEVICE, 9600), {"device": P_MISSING_DEVICE})):
+        if t is None:
+            continue
+        calls = ["connect"]
+        o = await call(t.connect())
+        if o == "ok":
+            corr.notes.append(f"{name}: the connection attempt succeeded (something listens there?)")
+            o = await call(t.disconnect())
+            if o != "ok":
+                corr.violate("disconnect of a connection just opened did not return normally", {"got": o, **where, "calls": calls})
+            continue
+        if is_transport_error(o):
+            corr.count(f"real:{name}->TransportError")
+        else:
+            corr.violate("a connection attempt that the operating system refused did not surface as a transport error",
+                         {"got": o, **where, "calls": list(calls)})
+        for what, make in (("read", t.read), ("write", lambda: t.write("x")), ("disconnect", t.disconnect)):
+            calls.append(what)
+            o = await call(make())
+            if what == "disconnect":
+                if o != "ok":
+                    corr.violate("disconnect of a transport whose connection attempt failed did not return normally",
+                                 {"got": o, **where, "calls": list(calls)})
+            elif is_transport_error(o):
                 corr.count("real:not-connected->TransportError")
-            except Exception as e:  # noqa: BLE001
-                corr.violate(f"{what} on an unconnected transport raised a non-transport error", {"exc": type(e).__name__})
-        await t.disconnect()
+            else:
+                corr.violate(f"{what} on a transport whose connection attempt failed did not raise a transport error",
+                             {"got": o, **where, "calls": list(calls)})
     # a real TCP round trip over loopback, if available
     try:
         got: list[bytes] = []
@@ -1962,34 +2367,21 @@ async def concrete_checks_real(corr: Corr) -> None:
         t = TCPTransport("127.0.0.1", port)
         res = []
         try:
-            await asyncio.wait_for(t.connect(), 10)
-            await t.write("1;2;1;0;0;5\n")
+            steps = [await call(t.connect()), await call(t.write("1;2;1;0;0;5\n"))]
             for _ in range(4):
-                try:
-                    res.append(("line", await asyncio.wait_for(t.read(), 10)))
-                except exc_mod.TransportError:
-                    res.append(("err",))
-            await t.disconnect()
-            want = [("line", "0;255;3;0;14;hi\n"), ("err",), ("err",), ("err",)]
-            if res != want or got != [b"1;2;1;0;0;5\n"]:
+                o = await call(t.read())
+                res.append("err" if is_transport_error(o) else o)
+            steps.append(await call(t.disconnect()))
+            want = ["line " + enc("0;255;3;0;14;hi\n"), "err", "err", "err"]
+            if steps != ["ok", "ok", "ok"] or res != want or got != [b"1;2;1;0;0;5\n"]:
                 corr.violate("real TCP round trip over loopback differs from the stream's lines",
-                             {"reads": repr(res), "want": repr(want), "server_got": repr(got)})
+                             {"connect/write/disconnect": repr(steps), "reads": repr(res), "want": repr(want),
+                              "server_got": repr(got)})
             else:
                 corr.count("real:tcp-loopback-roundtrip")
-        except Exception as e:  # noqa: BLE001
-            corr.violate("real TCP round trip raised a non-transport error", {"exc": type(e).__name__, "reads": repr(res)})
         finally:
             server.close()
             await server.wait_closed()
-    # a serial device that does not exist
-    t = SerialTransport("/dev/ttyVERIF-does-not-exist", 9600)
-    try:
-        await asyncio.wait_for(t.connect(), 10)
-        corr.notes.append("opening a non-existent serial device succeeded?")
-    except exc_mod.TransportError:
-        corr.count("real:serial-missing-device->TransportError")
-    except Exception as e:  # noqa: BLE001
-        corr.violate("a failing serial open did not surface as a transport error", {"exc": type(e).__name__})
 
 
 # ---- the run ----------------------------------------------------------------------------------
@@ -2023,7 +2415,12 @@ def run_c17(ctx) -> Corr:
                 "(thorough 20000) writes of 20 B .. 450 kB (thorough 3 MB), up to 9 MB in all (more than a peer that does not read "
                 "absorbs), disconnect, with a peer that reads promptly / slowly / only after disconnect() returned and has the "
                 "default or a small receive buffer: the peer must receive exactly the bytes written, in order, then a clean end "
-                "of stream (findings confirmed by a second run). non-trivial = distinct (limit, ops, observations) with >= 2 "
+                "of stream (findings confirmed by a second run); (g) one TCPTransport(host, port) / SerialTransport(port, baud) object "
+                "(positional, keyword, default arguments) in every state without a connection (fresh; connect failed with an "
+                "OSError-family class, another class, the caller cancelled, the caller's timeout, the real OS; disconnected; "
+                "disconnected then failed connect; the same after a real connection was disconnected) x every sequence of <= 3 "
+                "calls over {read, write, disconnect, connect that opens, connect that fails}: never connected => read/write raise "
+                "transport errors, disconnect returns, failed connects are transport errors; compared with the model too. non-trivial = distinct (limit, ops, observations) with >= 2 "
                 "chunks, or an error outcome, or a fault; for (d): overlapping writes, or a disconnect/loss in the case")
     tier = ctx.tier
     rng = lib.rng_for(ctx.seed, "c17")
@@ -2127,7 +2524,33 @@ def run_c17(ctx) -> Corr:
             cresults.append(await run_concurrent(corr, cops, i % 3, limit,
                                                  {**info, "ops": [cop_text(o) for o in cops]}))
 
+    # (g) the concrete classes while they have no connection (every state x every follow-up of <= 3 calls)
+    pcases = preconnection_cases(tier)
+    presults: list[dict] = []
+
+    pcases.sort(key=lambda ci: pre_uses_os(ci[0]))         # those on the virtual clock first, then those on the real one
+    n_virtual = sum(1 for c, _ in pcases if not pre_uses_os(c))
+
+    async def run_pcases(upto: int) -> None:
+        loop = asyncio.get_running_loop()
+        os_port = free_loopback_port() if upto > n_virtual else None
+        t0 = loop.time()
+        while len(presults) < upto and (upto > n_virtual or loop.time() < LOOP_AGE):
+            case, info = pcases[len(presults)]
+            if upto > n_virtual and loop.time() - t0 > P_OS_BUDGET:
+                res = {"obs": [], "violations": [], "model": (["tnew"], ["ok"]),
+                       "skipped": "the cases against the real operating system used up their share of real time"}
+            else:
+                res = await run_preconnection(case, os_port)
+            presults.append(res)
+            for what, kw in res["violations"]:
+                corr.violate(what, {**info, "preconnection": case, "scenario": pre_text(case), "observed": res["obs"], **kw})
+
+    while len(presults) < n_virtual:
+        asyncio.run(run_pcases(n_virtual), loop_factory=VirtualTimeLoop)
+
     async def main() -> None:
+        await run_pcases(len(pcases))
         with Patched():
             await run_cases(0, n_corpus)            # the recorded witnesses first
             await run_ccases()
@@ -2258,6 +2681,31 @@ def run_c17(ctx) -> Corr:
                       "relaxed guards; small cases are also compared with the model (the connection's stream = what the peer "
                       "received, closed = the peer saw a clean end of stream)")
 
+    pmodel: dict[tuple, list] = {}          # the model's operation list -> the cases that read as it
+    for (case, info), res in zip(pcases, presults):
+        corr.count("cases:" + info["source"])
+        if res["skipped"]:
+            corr.count("preconnection:not-executed:" + res["skipped"])
+            continue
+        corr.count(f"preconnection:{case['cls']}:constructed-with-{case['ctor']}")
+        for s_, o in zip(case["steps"], res["obs"]):
+            how = "" if s_[0] != "connect" else ":" + (s_[1] if s_[1] in ("opens", "cancelled", "timeout", "os") else
+                                                       "raises-OSError-family" if s_[1] in CONNECT_IO else "raises-other-class")
+            corr.count(f"preconnection:{s_[0]}{how}->" + " ".join(o.split(" ")[:2 if o.startswith(("err", "foreign")) else 1]))
+        show = sum(1 for x in corr.samples if "preconnection" in x) < 1 and len(case["steps"]) >= 4
+        corr.case(hashlib.sha1(repr((sorted(case.items()), res["obs"])).encode()).hexdigest(), True,
+                  {**info, "preconnection": case, "scenario": pre_text(case), "observed": res["obs"]} if show else None)
+        pmodel.setdefault(tuple(res["model"][0]), []).append((case, info, res["model"][1]))
+    corr.notes.append("pre-connection cases (source preconnection:*): one TCPTransport(host, port) / SerialTransport(port, baud) "
+                      "object (positional, keyword, default arguments), its module-level open function replaced by the harness "
+                      "(or the real one against a closed loopback port / a missing device), in every state without a connection "
+                      "(fresh; connect failed: every OSError-family class, two others, caller cancelled, caller's timeout, the "
+                      "real OS; disconnected; disconnected then failed connect; the same after a connection that was opened and "
+                      "disconnected) x every sequence of <= 3 calls over {read, write, disconnect, connect that opens, connect "
+                      "that fails}; judged by the property (never connected: read/write raise transport errors, disconnect "
+                      "returns, failed connects are transport errors; calls after the disconnect of a real connection are made "
+                      "but not judged) and compared with the model op by op over the judged prefix")
+
     for (ops, info), obs in zip(cases, all_obs):
         src = info["source"].split(":")[0]
         corr.count(f"cases:{src}")
@@ -2320,7 +2768,18 @@ def run_c17(ctx) -> Corr:
             sc = schedule_of(ops, obs)
             if sc is not None and sc[1] and sum(len(e) for e in sc[1]) < 100000:
                 scheds.append((sc, info))
-        outs = lib.run_model([f"sched {lim} {'/'.join(evs)}" for (lim, evs, _), _ in scheds], driver=DRIVER)
+        plines = [ln for key in pmodel for ln in key]
+        outs = lib.run_model([f"sched {lim} {'/'.join(evs)}" for (lim, evs, _), _ in scheds] + plines, driver=DRIVER)
+        j = len(scheds)
+        for key, users in pmodel.items():
+            mo = outs[j:j + len(key)]
+            j += len(key)
+            for case, info, want in users:
+                corr.count("preconnection:compared-with-model")
+                if mo != want:
+                    corr.disagree("calls on a concrete transport without a connection read as the model's operations",
+                                  {**info, "preconnection": case, "scenario": pre_text(case), "model_ops": list(key),
+                                   "impl": want, "model": mo})
         for ((lim, evs, results), info), o in zip(scheds, outs):
             got = [] if o == "-" else o.split("|")
             corr.count("schedules-compared-with-Transport.run")
@@ -2336,8 +2795,11 @@ async def concrete_checks_patched(corr: Corr) -> None:
     for tr, want in ((TCPTransport("h"), {"host": "h", "port": 5003}),
                      (SerialTransport("/dev/x"), {"url": "/dev/x", "baudrate": 115200})):
         Opening.fault, Opening.last_kwargs = None, None
-        await tr.connect()
-        if Opening.last_kwargs != want:
+        o = await HangGuard.call(tr.connect())
+        if o != "ok":
+            corr.violate("connect of a transport constructed with default port/baud rate did not succeed although the open "
+                         "function returned a connection", {"transport": type(tr).__name__, "got": o})
+        elif Opening.last_kwargs != want:
             corr.violate("default port/baud rate not passed to the open function",
                          {"got": repr(Opening.last_kwargs), "want": repr(want)})
         else:
